@@ -219,11 +219,12 @@ let mode_model (dlog : bool) =
       else match split_ws line with
         | ["schema"; id] ->
           if List.mem id ["synth_express"; "synth_fluid"; "synth_punct_express"; "synth_punct_fluid"; "synth_kb_express"; "synth_kb_fluid";
-                          "synth_ascii_express"; "synth_ascii_fluid"] then begin
+                          "synth_ascii_express"; "synth_ascii_fluid"; "synth_acedit_express"; "synth_acedit_fluid"] then begin
             cfg := (if id = "synth_express" || id = "synth_fluid" then synth_cfg (id = "synth_fluid") dlog
                     else if id = "synth_punct_express" || id = "synth_punct_fluid" then synth_punct_cfg (id = "synth_punct_fluid") dlog
                     else if id = "synth_kb_express" || id = "synth_kb_fluid" then synth_kb_cfg (id = "synth_kb_fluid") dlog
-                    else synth_ascii_cfg (id = "synth_ascii_fluid") dlog);
+                    else if id = "synth_ascii_express" || id = "synth_ascii_fluid" then synth_ascii_cfg (id = "synth_ascii_fluid") dlog
+                    else synth_acedit_cfg (id = "synth_acedit_fluid") dlog);
             st := Some (init_state !cfg);
             print_endline ("== " ^ id)
           end else begin
